@@ -347,6 +347,10 @@ func (p *Plugin) maintenance(workerData *pipeline.WorkerData) {
 
 	p.logger.Infof("reconnecting worker...")
 	data := (*workerData).(*data)
+	if data.gelf == nil {
+		// not connected: the last connect or send failed
+		return
+	}
 	_ = data.gelf.close()
 	data.gelf = nil
 }
